@@ -359,10 +359,14 @@ def write_replay(prop, payload):
 
 
 def write_evidence(prop, tier, seed, coverage, assumptions, wall, violations, level="proof"):
-    os.makedirs(EVIDENCE, exist_ok=True)
+    evdir = EVIDENCE
+    if os.path.realpath(REPO) != os.path.realpath("/repo"):
+        # a run against another tree (VERIF_REPO, seeded-change evaluation) must not overwrite the evidence of /repo
+        evdir = os.path.join(CACHE, "evidence-other-tree")
+    os.makedirs(evdir, exist_ok=True)
     ev = dict(property_id=prop, tier=tier, seed=int(seed), level=level, coverage=coverage,
               assumptions=assumptions, wall_s=round(wall, 2), violations=int(violations))
-    p = os.path.join(EVIDENCE, "%s.json" % prop)
+    p = os.path.join(evdir, "%s.json" % prop)
     tmp = p + ".tmp"
     open(tmp, "w").write(json.dumps(ev, indent=1))
     os.replace(tmp, p)
